@@ -3,6 +3,7 @@ from .. import tables
 from ..callgraph import norm
 from ..common import body_by_name, callee_names, callgraph, impl_methods
 from ..facts import callee, const_str, op_const, op_local
+from ..inline import inlined, same_impl_helpers
 from ..flow import Flow, identity_through
 from .C12 import only_err_returns
 
@@ -140,7 +141,8 @@ def fields_rule(rep, prog, cfg):
         if len(bs) != 1:
             rep.fail(rule + ".anchor", "%s/%s" % (cfg, short), adt, "expected exactly one function constructing %s from looked-up fields, found %d" % (adt, len(bs)))
             continue
-        b = bs[0]
+        # parts of the decoding may sit in private helpers next to the decoder (spliced in, A12); the field extractors stay calls
+        b = inlined(prog, bs[0], same_impl_helpers(bs[0], module=True, exclude=set(EXTRACTORS)))
         aggs = []
         for bb, i, s in b.stmts():
             if s["k"] == "assign" and s["rv"]["k"] == "agg" and s["rv"]["agg"] == "adt" and norm(s["rv"]["adt_name"]) == adt:
@@ -228,7 +230,7 @@ def enums_rule(rep, prog, cfg):
         if len(bs) != 1:
             rep.fail(rule + ".anchor", "%s/%s" % (cfg, short), fn, "function %s not found" % fn)
             continue
-        b = bs[0]
+        b = inlined(prog, bs[0], same_impl_helpers(bs[0], module=True, exclude=set(EXTRACTORS)))
         ptab, bad = parse_table(b, adt)
         got = {}
         for lit, ci, v in ptab:
